@@ -238,7 +238,7 @@ func finderRandom(run *vh.Run, n int) {
 			lo, hi = uint64(rng.Intn(3)), uint64(L)
 		}
 		timeoutAt := -1
-		if rng.Intn(50) == 0 && plen > 0 {
+		if i%200 == 7 && plen > 0 {
 			timeoutAt = rng.Intn(plen)
 			pat[timeoutAt] = 'e' // the model sees a missing answer as a remote error
 		}
@@ -252,7 +252,7 @@ func finderRandom(run *vh.Run, n int) {
 			return 'n'
 		}}
 		if timeoutAt >= 0 {
-			c.timeout = 80 * time.Millisecond
+			c.timeout = 300 * time.Millisecond
 		}
 		res, probes := runBS(c, lo, hi)
 		ps := string(pat)
@@ -311,7 +311,7 @@ type finderCase struct {
 func runFinder(fc *finderCase) (res string, replies []string) {
 	to := 120 * time.Second
 	if fc.noReply {
-		to = 80 * time.Millisecond
+		to = 300 * time.Millisecond
 	}
 	cfg := syncer.VerifC17NewCfg(10, 2, 2, 2, to, fc.fullOnly)
 	ctx := types.NewSyncCtx(9, peerID(0), fc.target, fc.local.c.best(), nil)
